@@ -1154,8 +1154,11 @@ func (root *Root) Resolve(field *Field, args map[string]interface{}) (result int
 	return
 }
 
-func (root *Root) subscribe(sub *Subscription) {
+func (root *Root) subscribe(sub *Subscription, vars map[string]interface{}) {
 	sub.prep(root)
+	if sub.vars = vars; sub.vars == nil {
+		sub.vars = map[string]interface{}{}
+	}
 	verifPoint("sub.before", sub.sub)
 	root.subLock.Lock()
 	root.subscriptions = append(root.subscriptions, sub)
@@ -1185,14 +1188,13 @@ func (root *Root) Unsubscribe(id string) (cnt int) {
 // for the subscription is used to form a result based on the type of event
 // being published.
 func (root *Root) AddEvent(id string, event interface{}) (cnt int, err error) {
-	vars := map[string]interface{}{}
 	var ea []error
 	var failed []*Subscription
 	verifPoint("pub.before", id)
 	root.subLock.Lock()
 	for _, s := range root.subscriptions {
 		if s.sub.Match(id) {
-			result, ea2 := root.resolve(event, vars, s.field, s.typ, MaxResolveDepth)
+			result, ea2 := root.resolve(event, s.vars, s.field, s.typ, MaxResolveDepth)
 			ea = append(ea, ea2...)
 			cnt++
 			if err = s.sub.Send(result); err != nil {
